@@ -20,25 +20,33 @@ HEAD = ('<xs:schema xmlns:xs="http://www.w3.org/2001/XMLSchema" targetNamespace=
         'xmlns:t="urn:T" xmlns:a="urn:A" xmlns:b="urn:B" elementFormDefault="qualified">\n')
 
 
-def tok(t, literal_target=False):
+HEAD_A = HEAD.replace('targetNamespace="urn:T"', 'targetNamespace="urn:A"')
+
+
+def tok(t, literal_target=False, home="T"):
     if t == "":
         return "##local"
-    if t == "T" and not literal_target:
+    if t == home and not literal_target:
         return "##targetNamespace"
     return URI[t]
 
 
-def attr_text(x, literal_target=False):
-    """Render a written constraint (spec: Syn) as XML attributes."""
+def attr_text(x, literal_target=False, home="T"):
+    """Render a written constraint (spec: Syn) as XML attributes of a schema whose target namespace is `home`:
+    the SAME set of names is written relative to that namespace (##targetNamespace, ##other)."""
     sy = x["ns"]
     if sy["f"] == "any":
         s = 'namespace="##any"'
-    elif sy["f"] == "other":
+    elif sy["f"] == "other" and home == "T":
         s = 'namespace="##other"'
+    elif sy["f"] == "other":                 # not(absent, T) seen from another schema (XSD 1.1 only)
+        s = 'notNamespace="##local urn:T"'
     elif sy["f"] == "list":
-        s = 'namespace="%s"' % " ".join(tok(t, literal_target) for t in sorted(sy["t"]))
+        s = 'namespace="%s"' % " ".join(tok(t, literal_target, home) for t in sorted(sy["t"]))
+    elif home != "T" and sorted(sy["t"]) == ["", home]:
+        s = 'namespace="##other"'           # not(absent, home) is what ##other means over there
     else:
-        s = 'notNamespace="%s"' % " ".join(tok(t, literal_target) for t in sorted(sy["t"]))
+        s = 'notNamespace="%s"' % " ".join(tok(t, literal_target, home) for t in sorted(sy["t"]))
     if x["nq"]:
         s += ' notQName="%s"' % " ".join(
             (PFX[n[0]] + ":" + n[1]) if n[0] else n[1] for n in sorted(map(tuple, x["nq"])))
@@ -60,10 +68,11 @@ def key(x):
 _pool: dict = {}
 
 
-def pool(ver, kind, syns):
-    """One schema holding every written constraint as a wildcard of `kind`; -> key -> object."""
+def pool(ver, kind, syns, home="T"):
+    """One schema (target namespace `home`) holding every written constraint as a wildcard of `kind`;
+    -> key -> object."""
     import xmlschema
-    k = (ver, kind)
+    k = (ver, kind, home)
     if k in _pool:
         return _pool[k]
     cls = xmlschema.XMLSchema10 if ver == "1.0" else xmlschema.XMLSchema11
@@ -71,14 +80,14 @@ def pool(ver, kind, syns):
     for i, x in enumerate(syns):
         lit = i % 2 == 1
         if kind == "elem":
-            body.append(f'<xs:complexType name="c{i}"><xs:sequence><xs:any {attr_text(x, lit)} '
+            body.append(f'<xs:complexType name="c{i}"><xs:sequence><xs:any {attr_text(x, lit, home)} '
                         f'processContents="skip"/></xs:sequence></xs:complexType>')
         else:
-            body.append(f'<xs:complexType name="c{i}"><xs:anyAttribute {attr_text(x, lit)} '
+            body.append(f'<xs:complexType name="c{i}"><xs:anyAttribute {attr_text(x, lit, home)} '
                         f'processContents="skip"/></xs:complexType>')
     with warnings.catch_warnings():
         warnings.simplefilter("ignore")
-        s = cls(HEAD + "\n".join(body) + "</xs:schema>")
+        s = cls((HEAD if home == "T" else HEAD_A) + "\n".join(body) + "</xs:schema>")
     out = {}
     for i, x in enumerate(syns):
         t = s.types[f"c{i}"]
@@ -94,12 +103,19 @@ def chain_case(args):
     ver, hist = rec["ver"], rec["hist"]
     want = sorted(map(tuple, rec["den"]))
     bad = []
-    for kind in ("attr", "elem"):
+    # "cross": the operands of the steps come from a schema with ANOTHER target namespace (a base type of
+    # another namespace extended here): the same sets, written relative to that namespace (XSD 1.1)
+    passes = [("attr", "T"), ("elem", "T")] + ([("attr", "A"), ("elem", "A")] if ver == "1.1" and len(hist) > 1
+                                               else [])
+    for kind, home in passes:
         p = pool(ver, kind, syns)
+        po = pool(ver, kind, syns, home)
         w = copy.copy(p[key(hist[0])])
         raised = None
+        if home != "T":
+            kind = kind + "/cross-schema"
         for step in hist[1:]:
-            o = p[key(step["arg"])]
+            o = po[key(step["arg"])]
             try:
                 (w.union if step["op"] == "union" else w.intersection)(o)
             except xmlschema.XMLSchemaException as e:
@@ -118,7 +134,7 @@ def chain_case(args):
             continue
         if got != want:
             bad.append((f"{kind}: chain result admits a different set", got))
-        if len(hist) == 2:
+        if len(hist) == 2 and home == "T":
             a, b = p[key(hist[0])], p[key(hist[1]["arg"])]
             if hist[1]["op"] == "union":       # the relations do not depend on the op: once
                 r = a.is_restriction(b)
@@ -233,8 +249,12 @@ def judge(ctx: Ctx, recs, syns_by_ver, with_schemas=True):
     ctx.impl_replays += len(jobs)
     for (r, _), bad in zip(jobs, res):
         for what, got in bad:
+            # F-C16-cross: an operand written ##other in a schema with ANOTHER target namespace
+            foreign_other = any(st["arg"]["ns"]["f"] == "not" and sorted(st["arg"]["ns"]["t"]) == ["", "A"]
+                                for st in r["hist"][1:])
             ctx.report({"ver": r["ver"], "hist": r["hist"], "den": r["den"], "inexpr": r["inexpr"],
-                        "rel": r["rel"], "observed": got, "driver": "objects"}, what)
+                        "rel": r["rel"], "observed": got, "driver": "objects"}, what,
+                       finding="F-C16-cross" if ("cross-schema" in what and foreign_other) else None)
     if with_schemas:
         pairs = [j for j in jobs if len(j[0]["hist"]) == 2]
         res = ctx.pmap(schema_case, pairs)
